@@ -7,6 +7,13 @@
 //!   RB k i <hex>  the octets as the BGP UPDATE of a Route Monitoring message of peer i on router k
 //!   AB b <hex>    the octets as an UPDATE on BGP session b (parsed with SessionConfig::modern())
 //!   QX af <len>/<hex|->  query for a prefix given in wire form (af 0 = IPv4, 1 = IPv6)
+//! and BMP itself from the wire (frames from the PROVED encoder of Bmp/BmpWire.v, oracle bmpenc, and malformed variants):
+//!   WB k <hex>    octets arriving on router k's connection: cut into frames by the real io.rs `bmp_read` (hook
+//!                 verif_bmp_read), every frame to the real state machine. One token: the frames' tokens joined by '~';
+//!                 `unparsable/<phase>` = routecore refused the frame, `short` = length field below 5, `cut` = the octets
+//!                 end inside a message; an accepted Initiation in the initiating phase shows what went to the ingress
+//!                 register (:n=<sysName hex>,d=<sysDescr hex>). Peers are named k<k>x<FNV-1a 32 of type, flags,
+//!                 distinguisher, address as read, AS, BGP id>.
 //! A route's attribute set is printed as the small number of the abstract op that
 //! produced exactly these attribute octets, else as n<length>h<FNV-1a 32> of the octets.
 //! Glue emulated here (not exercised): the accept loops' find-or-register of
@@ -281,6 +288,83 @@ pub fn peer_down_msg(pph: &enc::PerPeerHeader, reason: Option<u32>) -> Bytes {
     Bytes::from(v)
 }
 
+/// the name of a per-peer header that came in a BMP frame: FNV-1a of what routecore's PartialEq compares
+fn wire_name(k: u32, p: &rotonda::verif::bmp::PeerIdent) -> String {
+    let mut o = vec![p.peer_type, p.flags];
+    o.extend_from_slice(&p.distinguisher);
+    match p.address {
+        IpAddr::V4(a) => o.extend_from_slice(&a.octets()),
+        IpAddr::V6(a) => o.extend_from_slice(&a.octets()),
+    }
+    o.extend_from_slice(&p.asn.to_be_bytes());
+    o.extend_from_slice(&p.bgp_id);
+    format!("k{k}x{:08x}", fnv(&o))
+}
+
+/// an information string as the register holds it; `from_utf8_lossy` leaves ASCII alone, anything else is not compared
+fn hexs(b: &[u8]) -> String {
+    if b.iter().any(|x| *x >= 128) { "nonascii".into() } else { b.iter().map(|x| format!("{x:02x}")).collect() }
+}
+
+/// op WB: the octets through the real bmp_read, frame after frame, into the session of router k
+fn wire_octets(w: &mut World, k: u32, octets: &[u8]) -> String {
+    let mut toks: Vec<String> = vec![];
+    let mut rx: &[u8] = octets;
+    loop {
+        if rx.is_empty() { break; }
+        let left = rx.len();
+        // bmp_read allocates the declared length before it reads: a declaration above the cap that the octets cannot
+        // honour anyway is not executed (it would end in UnexpectedEof after the allocation)
+        if rx.len() >= 5 {
+            let len = u32::from_be_bytes([rx[1], rx[2], rx[3], rx[4]]) as usize;
+            if len > super::bstream::CAP && len > rx.len() { toks.push("cut".into()); break; }
+        }
+        let res = w.rt.block_on(rotonda::verif::bmp_stream::verif_bmp_read(rx));
+        match res {
+            Err((rest, e)) => match e.kind() {
+                std::io::ErrorKind::UnexpectedEof => { toks.push("cut".into()); break; }
+                std::io::ErrorKind::InvalidData => { toks.push("short".into()); break; }
+                std::io::ErrorKind::Other => {
+                    // the parser refused the frame: not fatal, the read loop goes on with the next one
+                    assert!(rest.len() < left, "bmp_read made no progress");
+                    let (_, s) = w.routers.get(&k).unwrap();
+                    toks.push(format!("unparsable/{}", s.phase()));
+                    rx = rest;
+                }
+                other => { toks.push(format!("ioerr:{other:?}")); break; }
+            },
+            Ok((rest, frame)) => {
+                rx = rest;
+                let is_init = frame.len() > 5 && frame[5] == 4;
+                let (res, before, phase, peers, rid) = {
+                    let (rid, s) = w.routers.get_mut(&k).unwrap();
+                    let before = s.phase();
+                    let r = s.step(frame);
+                    (r, before, s.phase(), s.peers(), *rid)
+                };
+                for (ident, id) in peers { let name = wire_name(k, &ident); w.note(name, id); }
+                let mut tok = match res {
+                    StepOutcome::Unparsable => "unparsable".to_string(),
+                    StepOutcome::Invalid(_) => "i".into(),
+                    StepOutcome::Other => "o".into(),
+                    StepOutcome::Transition => "t".into(),
+                    StepOutcome::Aborted => "aborted".into(),
+                    StepOutcome::Update(u) => { let t = w.show_update(&u); w.apply(u); t }
+                };
+                tok = format!("{tok}/{phase}");
+                if is_init && before == 0 && phase == 1 {
+                    let info = w.reg.get(rid);
+                    let name = info.as_ref().and_then(|i| i.name.clone()).unwrap_or_else(|| "<none>".into());
+                    let desc = info.as_ref().and_then(|i| i.desc.clone()).unwrap_or_else(|| "<none>".into());
+                    tok = format!("{tok}:n={},d={}", hexs(name.as_bytes()), hexs(desc.as_bytes()));
+                }
+                toks.push(tok);
+            }
+        }
+    }
+    if toks.is_empty() { "nothing".into() } else { toks.join("~") }
+}
+
 pub fn run_case(line: &str) -> String {
     let rt = tokio::runtime::Builder::new_current_thread().enable_all().build().unwrap();
     let reg = Arc::new(rotonda::verif::ingress::new_register());
@@ -343,6 +427,13 @@ pub fn run_case(line: &str) -> String {
                     StepOutcome::Update(u) => { let t = w.show_update(&u); w.apply(u); t }
                 };
                 out.push(format!("{tok}/{phase}"));
+            }
+            "WB" => {
+                let k = n(1);
+                if !w.routers.contains_key(&k) { out.push("-".into()); continue; }
+                let octets = super::c04::unhex(op[2]).expect("bad hex");
+                let t = wire_octets(&mut w, k, &octets);
+                out.push(t);
             }
             "X" => {
                 let k = n(1);
